@@ -105,6 +105,30 @@ def run(S):
         gap_quarter_width=lambda a, r: r - pabs(a.x) <= width(a) / 4,
         exact_outside_band=lambda a, r: pimplies(pabs(2 * a.x) >= a.eps, peq(r, pabs(a.x))),
     ), sampler=_sampler)
+    # ---- smoothed distance to a two-edge corner: the smoothed minimum of the two plane distances must not depend on the order in
+    #      which the two edges are listed (symmetry of the smoothed minimum carried through its caller); closest points and unit normals
+    #      are callees (C16), replaced by uninterpreted functions of their own edge
+    import jax.numpy as jnp
+    from optimism import Surface as Surf
+    S.function('EdgeCpp.smooth_distance', EdgeCpp.smooth_distance, 'J')
+    E2 = J.sym_array('edge', (2, 2, 2))
+    pt = J.sym_array('p', (2,))
+    stol = tm.var('smoothingTol')
+    real_cpp, real_norm = EdgeCpp.cpp, Surf.compute_normal
+    flat = lambda e_: [e_[i, j] for i in range(2) for j in range(2)]
+    EdgeCpp.cpp = lambda e_, p_: (jnp.stack([J.uf('cpp_x', *flat(e_), p_[0], p_[1]), J.uf('cpp_y', *flat(e_), p_[0], p_[1])]), J.uf('cpp_t', *flat(e_), p_[0], p_[1]))
+    Surf.compute_normal = lambda e_: jnp.stack([J.uf('normal_x', *flat(e_)), J.uf('normal_y', *flat(e_))])
+    # the smoothed minimum enters by its contract "symmetric in its two arguments" (proved below): any symmetric function of (x, y)
+    # is a function of x + y and x y
+    real_smin = EdgeCpp.SmoothFunctions.min
+    EdgeCpp.SmoothFunctions.min = lambda a_, b_, e_: J.uf('symmetric_smooth_min', a_ + b_, a_ * b_, e_)
+    try:
+        d01 = J.scalar(J.symbolic_call(lambda E_, p_, t_: EdgeCpp.smooth_distance(E_, p_, t_), E2, pt, stol))
+        d10 = J.scalar(J.symbolic_call(lambda E_, p_, t_: EdgeCpp.smooth_distance(jnp.stack([E_[1], E_[0]]), p_, t_), E2, pt, stol))
+    finally:
+        EdgeCpp.cpp, Surf.compute_normal = real_cpp, real_norm
+        EdgeCpp.SmoothFunctions.min = real_smin
+    S.add('EdgeCpp.smooth_distance/does_not_depend_on_the_order_of_the_two_edges', [stol > 0], tm.eq(d01, d10), timeout=120000)
     for nm, f in (('min', SF.min), ('max', SF.max)):
         r1 = J.scalar(J.symbolic_call(f, x, y, e))
         r2 = J.scalar(J.symbolic_call(f, y, x, e))
